@@ -143,6 +143,9 @@ impl Obs {
     pub fn min_stake(&self) -> u128 {
         self.cfg.get("protocol_chain_config").map(|s| vu128(s, "minimum_liquid_stake_amount")).unwrap_or(0)
     }
+    pub fn native_prefix(&self) -> String {
+        self.cfg_str("native_chain_config", "account_address_prefix")
+    }
     pub fn channel(&self) -> String {
         self.cfg_str("protocol_chain_config", "ibc_channel_id")
     }
